@@ -2,6 +2,7 @@ package rules
 
 import (
 	"fmt"
+	"go/constant"
 	"go/token"
 	"go/types"
 	"sort"
@@ -89,12 +90,10 @@ func (d *deepView) structField(x ssa.Value, fr *frame, idx int, cs *caseSel, dep
 			return el, true
 		}
 	case *ssa.Alloc:
-		if s := pickStore(d.fieldStores(r, idx), cs); s != nil {
-			return dval{s.st.Val, s.fr}, true
-		}
 		// a whole-struct store into the cell
 		var whole []storeAt
 		var zeroInit []storeAt
+		fstores := d.fieldStores(r, idx)
 		d.eachStoreTo(y, r.fr, func(st *ssa.Store, f *frame) {
 			// an explicit zero value written before the real assignments (var x T = T{})
 			if k, isK := st.Val.(*ssa.Const); isK && k.Value == nil {
@@ -131,7 +130,30 @@ func (d *deepView) structField(x ssa.Value, fr *frame, idx int, cs *caseSel, dep
 			whole = append(whole, storeAt{st, f})
 		})
 		if len(whole) == 0 {
+			// only field-wise construction (plus, possibly, an explicit zero value first)
+			if s := pickStore(fstores, cs); s != nil {
+				return dval{s.st.Val, s.fr}, true
+			}
+			if len(fstores) > 0 {
+				return dval{}, false
+			}
 			whole = zeroInit
+		} else if len(fstores) > 0 {
+			// the variable is initialised field by field and assigned as a whole later
+			// (x := T{A: 0}; switch { case ..: x = y }): the zero initialiser stands for
+			// the zero value, anything else is not decided here
+			allZero := true
+			for _, s := range fstores {
+				if k, isK := s.st.Val.(*ssa.Const); !isK || !isZeroConst(k) {
+					allZero = false
+				}
+			}
+			if !allZero {
+				if s := pickStore(fstores, cs); s != nil {
+					return dval{s.st.Val, s.fr}, true
+				}
+				return dval{}, false
+			}
 		}
 		if s := pickStore(whole, cs); s != nil {
 			return d.structField(s.st.Val, s.fr, idx, cs, depth+1)
@@ -808,4 +830,20 @@ func (d *deepView) fieldOrigin(v ssa.Value, fr *frame, depth int) string {
 		return out
 	}
 	return ""
+}
+
+// isZeroConst: the constant is the zero value of its type.
+func isZeroConst(k *ssa.Const) bool {
+	if k.Value == nil {
+		return true
+	}
+	switch k.Value.Kind() {
+	case constant.Int, constant.Float:
+		return constant.Sign(k.Value) == 0
+	case constant.Bool:
+		return !constant.BoolVal(k.Value)
+	case constant.String:
+		return constant.StringVal(k.Value) == ""
+	}
+	return false
 }
